@@ -50,6 +50,13 @@ def cells_of(entries, obj, what):
                 norm.append(c)
             vals.add(tuple(norm))
         if len(vals) != 1:
+            plain = all(c[0] == "const" or (c[0] == "attr" and c[1] == X and c[2] in SLOTS) for v in vals for c in v)
+            if plain and any(len(v) < len(SLOTS) for v in vals):
+                # every answering path compares stored components only, and one of them establishes fewer component
+                # equalities than there are components: not an idiom question
+                raise PartialKey(f"{what}: for path_nonempty={cell[0]}, netloc_nonempty={cell[1]} one path to the verdict compares only "
+                                 f"{[tuple(show(c) for c in v) for v in sorted(vals, key=len)][0]} while another compares "
+                                 f"{[tuple(show(c) for c in v) for v in sorted(vals, key=len)][-1]}")
             raise AnalysisError(f"{what}: key is ambiguous for cell path_nonempty={cell[0]}, netloc_nonempty={cell[1]}: "
                                 f"{[tuple(show(c) for c in v) for v in vals]}")
         table[cell] = vals.pop()
@@ -82,6 +89,10 @@ def show_table(t):
 
 
 class KeyFromCache(Exception):
+    pass
+
+
+class PartialKey(AnalysisError):
     pass
 
 
@@ -226,8 +237,14 @@ def cmp_rules(ctx: Ctx):
         ctx.instance("CMP1")
         ctx.ob("CMP1", fi.qual, "equality key", False, str(e), where(fi, fi.node))
         return None
-    t_self = cells_of(sides["self"], S, "__eq__ (self side)")
-    t_other = cells_of(sides["other"], O, "__eq__ (other side)")
+    try:
+        t_self = cells_of(sides["self"], S, "__eq__ (self side)")
+        t_other = cells_of(sides["other"], O, "__eq__ (other side)")
+    except PartialKey as e:
+        ctx.instance("CMP1")
+        ctx.ob("CMP1", fi.qual, "equality key", False, f"{e}: URLs differing in an uncompared component compare equal",
+               where(fi, fi.node))
+        return None
     ctx.instance("CMP5")
     ctx.ob("CMP5", fi.qual, "key(self) vs key(other)", t_self == t_other,
            f"__eq__ applies different keys to its operands: {show_table(t_self)} vs {show_table(t_other)}",
